@@ -348,7 +348,9 @@ func (s *shapeV) interaction(w string, io *Obj) {
 				}
 				if !r.Has("body") {
 					s.errf("missing-field", "%s lacks body", rw)
-				} else if r.M["body"] != nil { // null body is judged by C05 ("every response has a body")
+				} else if r.M["body"] == nil {
+					s.errf("missing-field", "%s.body is null: the required field carries no value", rw)
+				} else {
 					s.body(rw+".body", r.M["body"])
 				}
 			}
